@@ -1683,7 +1683,14 @@ def _overlap_collision_time(
 ) -> int:
     # Tracks the first used moment index for each qubit in c2.
     # Tracks the complementary last used moment index for each qubit in c1.
-    seen_times: dict[cirq.Qid, int] = {}
+    # Measurement and control keys count as wires too: an operation must not slide past (or next
+    # to) a measurement it depends on, nor a measurement past an operation on the same key.
+    seen_times: dict[Any, int] = {}
+
+    def wires(op: cirq.Operation) -> Iterator[Any]:
+        yield from op.qubits
+        yield from protocols.measurement_key_objs(op)
+        yield from protocols.control_keys(op)
 
     # Start scanning from end of first and start of second.
     if align == Alignment.LEFT:
@@ -1699,7 +1706,7 @@ def _overlap_collision_time(
     while t < upper_bound:
         if t < len(c2):
             for op in c2[t]:
-                for q in op.qubits:
+                for q in wires(op):
                     # Record time but check if qubit already seen on other side.
                     k2 = seen_times.setdefault(q, t)
                     if k2 < 0:
@@ -1707,7 +1714,7 @@ def _overlap_collision_time(
                         upper_bound = min(upper_bound, t + ~k2)
         if t < len(c1):
             for op in c1[-1 - t]:
-                for q in op.qubits:
+                for q in wires(op):
                     # Record time but check if qubit already seen on other side.
                     # Note t is bitwise complemented to pack in left-vs-right origin data.
                     k2 = seen_times.setdefault(q, ~t)
